@@ -110,7 +110,7 @@ SOCKNOTE = "Trusted: Lean kernel; constants translator; the hand-written dispatc
 
 CLAIMS["C12"] = dict(
     text="Lean theorems over every sequence of dispatcher loop iterations (acceptors, control requests, datagrams with any bytes from any address, idle wake-ups), every limit, random supply and requester liveness: the number of table entries never exceeds max_live_vsocks and keys (peer address, receive connection id) are unique (invariant by induction over event lists); every delivery made in an iteration is of the datagram just received, to the entry under (its source address, its connection id), and no other function of the dispatcher delivers; an entry (key -> connection instance) leaves the table only when that iteration processed the Shutdown request for its key or a datagram for exactly that key found the connection's task gone (no eviction by connects, SYNs, SYN-ACKs, floods or the limit); a connect beyond the limit fails with TooManyActiveConnections and changes nothing; SYN-ACKs and SYNs arriving at a full table leave it untouched.",
-    note=SOCKNOTE + "PARTIAL: that each connection's byte stream stays intact is C01 per connection plus the delivery theorem here; the composition over many real connection tasks is not mechanised - it is exercised by the `net` integration component (2-3 real sockets, real dispatcher and connection tasks, scripted lossy network, per-stream tagged payload: implementation-side oracle only, no model). get_next_free_conn_id's loop is modelled with fuel 32768 (its termination needs fewer than 32768 same-parity keys for one address: true whenever max_live_vsocks <= 32768; beyond that the real loop would not terminate - observation, not reachable with the default 128). Observation recorded in DESIGN.md: Shutdown(key) names a key, not a connection instance, so a stale Shutdown can remove a successor connection that reused the key (needs the on_recv dead-channel removal and a reconnect with the same id to win a select! race against the pending Shutdown).",
+    note=SOCKNOTE + "PARTIAL: that each connection's byte stream stays intact is C01 per connection plus the delivery theorem here; the composition over many real connection tasks is not mechanised - it is exercised by the `net` integration component (2-3 real sockets, real dispatcher and connection tasks, scripted lossy network, per-stream tagged payload: implementation-side oracle only, no model). get_next_free_conn_id's loop is modelled with fuel 32768 (its termination needs fewer than 32768 same-parity keys for one address: true whenever max_live_vsocks <= 32768; beyond that the real loop would not terminate - observation, not reachable with the default 128). Found and fixed: D20 (the stale Shutdown(key) of an ended stream evicted a successor that re-used the key; reproduced with real tasks; Shutdown is now tagged with the stream instance; theorems no_eviction / stale_shutdown_ignored).",
     technique="Lean 4 proof (table invariant and effect classification by induction over loop fuel and event lists) + regenerated constants + lockstep correspondence of the real Dispatcher",
     ref="5 C12")
 CLAIMS["C13"] = dict(
